@@ -66,7 +66,9 @@ Definition add_file1 (s : state) (sm : smap) (p : path) : add1 :=
   else match find_w (st_wt s) p with
        | Some f => ASet (entry_of_file s f)
        | None =>
-         if is_dir_wt s p then AErr          (* copy of a directory: "is a directory" *)
+         (* Lstat below a file ("not a directory") or a symlink (refused by the worktree filesystem) *)
+         if existsb (fun f => under (wf_path f) p) (st_wt s) then AErr
+         else if is_dir_wt s p then AErr     (* copy of a directory: "is a directory" *)
          else match find_i (st_index s) p with
               | Some _ => ADel               (* os.IsNotExist: deleteFromIndex *)
               | None => AErr                 (* index.ErrEntryNotFound *)
